@@ -11,4 +11,5 @@ printf '\nrequire verif.local/simrt v0.0.0\n\nreplace verif.local/simrt => %s\n'
 rm -f $S/harness/*.go; cp $V/sim/harness/*.go $S/harness/
 sed -e "s#@REPO@#$S/repo#" -e "s#@SIMRT@#$V/sim/simrt#" $V/sim/harness/go.mod.tmpl > $S/harness/go.mod
 cp $R/go.sum $S/harness/go.sum
-(cd $S/harness && go build -o $S/harness.bin .) && echo built $S/harness.bin
+(cd $S/harness && go build -o $S/harness.bin .) && echo built $S/harness.bin || exit 2
+if [ -n "${DEV_RACE:-}" ]; then (cd $S/harness && go build -race -o $S/laner.bin .) && echo built $S/laner.bin; fi
